@@ -95,6 +95,49 @@ def balance(ctx, F, fid, proto, rid):
         rep.bad(rid, '%s:%s' % (fid, what), 'event ordering: ' + what, loc)
 
 
+
+def meta_forward_iter(F, f, p, ev):
+    """The forwarding loop written as an iterator chain: one filter whose closure returns exactly the
+       <p>_enabled() of its element, one for_each over that filter whose closure calls <p>_<ev> once on
+       every path, and no other Logger call anywhere in the function or its closures."""
+    flt = f.calls(r'Iterator::filter$')
+    fe = f.calls(r'Iterator::for_each$')
+    if len(flt) != 1 or len(fe) != 1:
+        return False, 'neither the for-loop nor the filter/for_each forwarding idiom (%d filter, %d for_each calls)' % (len(flt), len(fe))
+
+    def clos(e):
+        e = peel(e)
+        return e[1][len('closure:'):] if isinstance(e, tuple) and e[0] == 'agg' and str(e[1]).startswith('closure:') else None
+    src = peel(f.argv(fe[0][0], 0))
+    if not is_call(src, r'Iterator::filter$'):
+        return False, 'for_each does not consume the filter'
+    base = peel(f.argv(flt[0][0], 0))
+    if not (is_call(base, r'::iter$|into_iter$') and 'loggers' in short(base)):
+        return False, 'filter is not applied to the logger list: %s' % short(base)[:80]
+    c0, c1 = clos(f.argv(flt[0][0], 1)), clos(f.argv(fe[0][0], 1))
+    if not c0 or not c1 or c0 not in F.fns or c1 not in F.fns:
+        return False, 'filter/for_each arguments are not closures of this function'
+    g0, g1 = F.fn(c0), F.fn(c1)
+    others = [c for c in F.fns if c.startswith(f.id + '::{closure') and c not in (c0, c1)]
+    v0 = [(bi, t) for bi, t in g0.calls() if t['trait'] == 'logger::Logger']
+    v1 = [(bi, t) for bi, t in g1.calls() if t['trait'] == 'logger::Logger']
+    if others or [t['name'] for _, t in v0] != ['%s_enabled' % p] or [t['name'] for _, t in v1] != ['%s_%s' % (p, ev)]:
+        return False, 'closures call %s / %s' % ([t['name'] for _, t in v0], [t['name'] for _, t in v1])
+    rets = g0.return_blocks()
+    want = g0.call_val(v0[0][0])
+    if not rets or any(peel(g0.ret_value(rb)) != want for rb in rets):
+        return False, 'the filter predicate is not exactly the enabled() result'
+    evb = v1[0][0]
+    if any(rb in g1.reachable(0, removed_blocks=[evb]) for rb in g1.return_blocks()):
+        return False, 'the for_each body can return without the event call'
+    # once: the call block is not on a cycle
+    succs = set()
+    for sx in g1.succ[evb]:
+        succs |= g1.reachable(sx)
+    if evb in succs:
+        return False, 'the event call sits in a loop'
+    return True, 'iterator idiom: filter(%s_enabled) . for_each(%s_%s)' % (p, p, ev)
+
 def run(ctx):
     F = ctx.facts()
     rep = ctx.rep
@@ -115,7 +158,12 @@ def run(ctx):
             names = sorted(t['name'] for _, t in virt)
             ok = names == sorted(['%s_enabled' % p, '%s_%s' % (p, ev)])
             detail = 'Logger methods called: %s' % names
-            if ok:
+            if not virt:
+                # iterator idiom: loggers.iter().filter(|l| l.<p>_enabled()).for_each(|l| l.<p>_<ev>(..))
+                ok, detail = meta_forward_iter(F, f, p, ev)
+                if ok:
+                    rep.saw(*[c for c in F.fns if c.startswith(fid + '::{closure')])
+            elif ok:
                 en = [bi for bi, t in virt if t['name'].endswith('_enabled')][0]
                 evb = [bi for bi, t in virt if not t['name'].endswith('_enabled')][0]
                 enexpr = f.call_val(en)
